@@ -8,9 +8,10 @@ import (
 
 // StrCase: one string literal (raw source bytes) and the text it must evaluate to.
 type StrCase struct {
-	Lit  Bytes `json:"literal"`
-	Want Bytes `json:"want"`
-	Open bool  `json:"open"` // must be rejected
+	Lit    Bytes `json:"literal"`
+	Want   Bytes `json:"want"`
+	Open   bool  `json:"open"`             // must be rejected
+	Before Bytes `json:"before,omitempty"` // a text parsed (and usually rejected) immediately before
 }
 
 var c13Str *eng.Kind[StrCase]
@@ -28,6 +29,11 @@ func init() {
 
 func judgeStr(c StrCase) *eng.Fail {
 	src := []byte(c.Lit)
+	if len(c.Before) > 0 {
+		// whatever happens to this text (it may be rejected through any error path), the
+		// literal parsed right after it must still denote its own text
+		safeParse(c.Before)
+	}
 	if c.Open {
 		for _, s := range [][]byte{src, append(append([]byte("["), src...), ']'), append([]byte("1 + "), src...)} {
 			o := safeParse(s)
@@ -147,6 +153,19 @@ func runC13(w *eng.W) {
 	canon := 3
 	if !q {
 		allForms, canon = 3, 4
+	}
+	// a rejected text parsed immediately before must not influence the next literal
+	poisons := []string{"'\\xzz'", "\"\\uzzzz\"", "'C:\\users\\xavier'", "'abc", "'a\nb'", "\"\\xg1\"", "(1 2", "a b", "'\\u12", "'tail\\", "'p' + 'q\\xhh", "0x1 'k'"}
+	for _, pz := range poisons {
+		if !w.Take() {
+			continue
+		}
+		for _, lit := range []string{"'plain'", "\"plain\"", "''", "'\\x41\\u4e2d'", "'a\\nb'", "'it\\'s'"} {
+			want := map[string]string{"'plain'": "plain", "\"plain\"": "plain", "''": "", "'\\x41\\u4e2d'": "A中", "'a\\nb'": "a\nb", "'it\\'s'": "it's"}[lit]
+			for rep := 0; rep < 3; rep++ {
+				emit("after-rejected-text", StrCase{Lit: Bytes(lit), Want: Bytes(want), Before: Bytes(pz)})
+			}
+		}
 	}
 	for l := 0; l <= canon; l++ {
 		seqsSharded(w, len(atoms), l, func(idx []int) {
